@@ -52,6 +52,7 @@ def shard(binpath, seed, sh, ncases):
     rng = common.rng_for(seed, PROP, sh)
     W = scen.World(binpath)
     res = common.Result()
+    weird = scen.unknown_scheme_keys(binpath)
     # 1. content + signatures by every pool key over content and over another content
     plans = []
     reqs = []
@@ -114,6 +115,14 @@ def shard(binpath, seed, sh, ncases):
                 why.add("other_content")
         if any(k not in auth for k, _, vf in entries if vf):
             why.add("unauthorised")
+        # an authorised key with an unknown signature scheme: entries labelled with its id can never be valid
+        extra_auth, extra_entries = [], []
+        if weird and rng.random() < 0.25:
+            wk = rng.choice(weird)
+            extra_auth.append(wk["pub"])
+            donor = sig[rng.choice(pool)]["sig"]
+            extra_entries.append({"keyid": wk["keyid"], "sig": rng.choice([donor, "ab" * 64, "", "00" * 256])})
+            why.add("unknown_scheme_key")
         labels = [k for k, _, _ in entries]
         once = len(labels) == len(set(labels))
         v = len({vf for k, _, vf in entries if vf is not None and vf in auth})
@@ -125,9 +134,12 @@ def shard(binpath, seed, sh, ncases):
             if perm:
                 rng.shuffle(es)
                 rng.shuffle(al)
-            wire = {"signatures": [{"keyid": W.kid(k), "sig": s} for k, s, _ in es], "signed": content}
+            sigl = [{"keyid": W.kid(k), "sig": s} for k, s, _ in es] + extra_entries
+            if perm:
+                rng.shuffle(sigl)
+            wire = {"signatures": sigl, "signed": content}
             cases.append({"op": "block", "text": json.dumps(wire), "threshold": t,
-                          "auth": [W.pub(k) for k in al],
+                          "auth": [W.pub(k) for k in al] + extra_auth,
                           "meta": {"t": t, "v": v, "once": once, "why": "+".join(sorted(why)) or "plain",
                                    "group": ci, "perm": perm,
                                    "entries": [[k, vf] for k, _, vf in es], "auth": al}})
@@ -173,6 +185,6 @@ def main(ctx):
         assumptions=["ground truth of signature validity is by construction (who signed which bytes, what was edited)",
                      "ring's primitives are correct"],
         required=["accepted", "rejected", "t=0", "t>n", "kind:dup", "kind:resign", "kind:mislabeled",
-                  "kind:flipped", "kind:unauthorised", "kind:other_content", "once", "repeated-labels",
+                  "kind:flipped", "kind:unauthorised", "kind:other_content", "kind:unknown_scheme_key", "once", "repeated-labels",
                   "accepted_with_t>=2"],
         min_evals=1000)
